@@ -957,6 +957,35 @@ pub open spec fn temp_frame(old: World, fin: World, tdir: PathV, reading: int) -
     &&& forall|p: PathV| old.files.contains_key(p) && !(#[trigger] fin.files.contains_key(p)) ==> p.len() > 0 && parent(p) == tdir && old.inode_at(p).mtime + temp_age_ns() < reading
 }
 
+/// C02 (completeness of cleanup): the first `c` listed items were readable, and none of them is still a stale file.
+pub open spec fn temp_done(l: Seq<Option<Seq<u8>>>, c: int, w: World, tdir: PathV, reading: int) -> bool {
+    forall|i: int| 0 <= i < c ==> (#[trigger] l[i]).is_some() && (w.files.contains_key(child(tdir, l[i].unwrap())) ==> w.inode_at(child(tdir, l[i].unwrap())).mtime
+        + temp_age_ns() >= reading)
+}
+
+/// No file directly inside `tdir` is older than the age limit at clock reading `reading`.
+pub open spec fn no_stale_temp(w: World, tdir: PathV, reading: int) -> bool {
+    forall|n: Seq<u8>| #[trigger] w.files.contains_key(child(tdir, n)) ==> w.inode_at(child(tdir, n)).mtime + temp_age_ns() >= reading
+}
+
+/// A complete, fully readable listing all of whose items have been dealt with leaves no stale file behind.
+pub proof fn lemma_temp_complete(l: Seq<Option<Seq<u8>>>, wl: World, w: World, tdir: PathV, reading: int)
+    requires
+        listing_of(l, wl, tdir),
+        temp_done(l, l.len() as int, w, tdir, reading),
+        forall|p: PathV| #[trigger] w.files.contains_key(p) ==> wl.files.contains_key(p),
+    ensures
+        no_stale_temp(w, tdir, reading),
+{
+    assert forall|n: Seq<u8>| #[trigger] w.files.contains_key(child(tdir, n)) implies w.inode_at(child(tdir, n)).mtime + temp_age_ns() >= reading by {
+        assert(wl.files.contains_key(child(tdir, n)));
+        assert(forall|i: int| 0 <= i < l.len() ==> (#[trigger] l[i]).is_some());
+        assert(l.contains(Some(n)));
+        let i = choose|i: int| 0 <= i < l.len() && l[i] == Some(n);
+        assert(l[i].is_some());
+    }
+}
+
 pub proof fn lemma_temp_frame_step(old: World, a: World, b: World, tdir: PathV, reading: int, n: Seq<u8>)
     requires
         temp_frame(old, a, tdir, reading),
@@ -1173,7 +1202,9 @@ pub open spec fn write_frame(old: World, fin: World, base: PathV, name: Seq<u8>,
         '                final(w).dirs == old(w).dirs && final(w).inodes == old(w).inodes,\n'
         '                final(w).files == old(w).files || (final(w).files == old(w).files.remove(child(dirent.dir(), dirent.name())) '
         '&& old(w).files.contains_key(child(dirent.dir(), dirent.name())) '
-        '&& old(w).inode_at(child(dirent.dir(), dirent.name())).mtime < threshold.ns()),   // @L C17 C02:only-stale-temporary-files-are-removed\n')
+        '&& old(w).inode_at(child(dirent.dir(), dirent.name())).mtime < threshold.ns()),   // @L C17 C02:only-stale-temporary-files-are-removed\n'
+        '                final(w).hard_faults == old(w).hard_faults && old(w).files.contains_key(child(dirent.dir(), dirent.name())) '
+        '&& old(w).inode_at(child(dirent.dir(), dirent.name())).mtime < threshold.ns() ==> !final(w).files.contains_key(child(dirent.dir(), dirent.name())),   // @L C02:a-stale-temporary-file-is-removed-unless-a-call-fails\n')
     closure_shape = cl._find('let mut handle = | | -> Result < ( ) >', count=True) == 1 and cl._find('let _ = handle ( ) ;', count=True) == 1
     if closure_shape:
         cl.replace('let mut handle = | | -> Result < ( ) >',
@@ -1181,9 +1212,13 @@ pub open spec fn write_frame(old: World, fin: World, base: PathV, name: Seq<u8>,
                    'T4-closure-lift')
         cl.replace('handle ( )', 'handle(&dirent, &mut temp, threshold, Tracked(w))', 'T4-closure-call')
         cl.insert_before('let _ = handle', 'let ghost wb = *w;\n        ')
-        cl.insert_after('let _ = handle ( ) ;', '\n        proof { lemma_temp_frame_step(*old(w), wb, *w, tdir, reading, dirent.name()); }')
+        cl.insert_after('let _ = handle ( ) ;', '\n        proof { lemma_temp_frame_step(*old(w), wb, *w, tdir, reading, dirent.name()); hf = w.hard_faults; }')
         cl.insert_after_stmt('let metadata = dirent . metadata', '\n            broadcast use group_asref;\n            proof { lemma_child(dirent.dir(), dirent.name()); }')
-        after_next = ''
+        after_next = ('let ghost kskip = choose|k: int| std::fs::flat_step(l_all.skip(c), k, Some(dirent.name()), kw_it.rem()) && w.hard_faults == hf + k; '
+                      'proof { assert(l_all.skip(c).skip(kskip + 1) =~= l_all.skip(c + kskip + 1)); '
+                      'assert(l_all[c + kskip] == l_all.skip(c)[kskip]); '
+                      'if w.hard_faults == old(w).hard_faults { assert(kskip == 0); } '
+                      'c = c + kskip + 1; hf = w.hard_faults; } ')
     else:
         # the per-entry closure is gone: the loop body is woven as it stands; one generic hint at the top of the body says
         # that unlinking a stale child of the temp directory (or doing nothing) keeps the frame
@@ -1193,13 +1228,17 @@ pub open spec fn write_frame(old: World, fin: World, base: PathV, name: Seq<u8>,
                       '&& (!b.same_fs(a) ==> wb0.inode_at(child(tdir, dirent.name())).mtime + temp_age_ns() < reading) implies temp_frame(*old(w), b, tdir, reading) by { '
                       'lemma_temp_frame_step(*old(w), wb0, b, tdir, reading, dirent.name()); } } ')
     cl.desugar_for(0, next_args=TW,
-                   after_init='let ghost tdir = pbv(temp); let ghost reading = w.now;', after_next=after_next)
+                   after_init='let ghost tdir = pbv(temp); let ghost reading = w.now; let ghost l_all = kw_it.rem(); let ghost wl = *w; let ghost mut c: int = 0; let ghost mut hf: nat = w.hard_faults;',
+                   after_next=after_next,
+                   after_loop='proof { if w.hard_faults == old(w).hard_faults { assert(temp_done(l_all, l_all.len() as int, *w, tdir, reading)); lemma_temp_complete(l_all, wl, *w, tdir, reading); } }')
     cl.loop_contract(0, invariant=[
         ('', 'old(w).inv() && w.inv() && w.kept(*old(w)) && kw_it.dir() == tdir && pbv(temp) == tdir && tdir == cowv(temp_dir) && is_temp_dir_of(*w, tdir) && w.now == reading'),
         ('', 'threshold.ns() == reading - temp_age_ns()'),
         ('C17 C02:only-stale-temporary-files-are-removed', 'temp_frame(*old(w), *w, tdir, reading)'),
+        ('', '0 <= c <= l_all.len() && listing_of(l_all, wl, tdir) && wl.files == old(w).files && wl.inodes == old(w).inodes'),
+        ('C02:every-listed-stale-temporary-file-seen-so-far-is-gone-unless-a-call-failed', 'w.hard_faults == old(w).hard_faults ==> temp_done(l_all, c, *w, tdir, reading)'),
         ('C06:three-calls-per-directory-item', 'w.steps <= old(w).steps + 2 + 3 * (w.listed - old(w).listed) && w.opens == old(w).opens + 1 && w.published == old(w).published'),
-    ], invariant_except_break=[('C06:three-calls-per-directory-item', 'w.steps <= old(w).steps + 1 + 3 * (w.listed - old(w).listed)')],
+    ], ensures=[('', 'w.hard_faults == old(w).hard_faults ==> c == l_all.len()')], invariant_except_break=[('', 'kw_it.rem() == l_all.skip(c) && hf == w.hard_faults'), ('C06:three-calls-per-directory-item', 'w.steps <= old(w).steps + 1 + 3 * (w.listed - old(w).listed)')],
         decreases='kw_it.rem().len()')
     cl.contract(
         requires=[('', 'old(w).inv()'),
@@ -1207,6 +1246,8 @@ pub open spec fn write_frame(old: World, fin: World, base: PathV, name: Seq<u8>,
         ensures=[
             INV, ('', 'final(w).kept(*old(w))'),
             ('C17 C02:only-stale-temporary-files-are-removed', 'temp_frame(*old(w), *final(w), cowv(temp_dir), final(w).now)'),
+            ('C02:debris-older-than-the-age-limit-is-removed-when-no-call-fails',
+             'r.is_ok() && final(w).hard_faults == old(w).hard_faults && old(w).dirs.contains(cowv(temp_dir)) && final(w).now >= temp_age_ns() ==> no_stale_temp(*final(w), cowv(temp_dir), final(w).now)'),
             ('C06:three-calls-per-directory-item', 'final(w).steps <= old(w).steps + 2 + 3 * (final(w).listed - old(w).listed) && final(w).opens <= old(w).opens + 1 && final(w).published == old(w).published'),
             ('C05 C18:error-is-a-real-fault', 'r.is_err() ==> final(w).hard_faults > old(w).hard_faults'),
         ])
@@ -1318,6 +1359,8 @@ pub open spec fn write_frame(old: World, fin: World, base: PathV, name: Seq<u8>,
         requires=[('', 'old(w).inv() && (self.spec_temp() == child(self.spec_base(), temp_name()) && old(w).cache_dirs.contains(self.spec_base()) && !old(w).under_ro(self.spec_base()) && !old(w).under_ro(self.spec_temp()) && (forall|n: Seq<u8>| !old(w).under_ro(#[trigger] child(self.spec_base(), n))) && (forall|n: Seq<u8>| !old(w).under_ro(#[trigger] child(self.spec_temp(), n))))')],
         ensures=[INV, ('', 'final(w).kept(*old(w))'),
                  ('C17 C02:only-stale-temporary-files-are-removed', 'temp_frame(*old(w), *final(w), self.spec_temp(), final(w).now)'),
+                 ('C02:debris-older-than-the-age-limit-is-removed-when-no-call-fails',
+                  'r.is_ok() && final(w).hard_faults == old(w).hard_faults && old(w).dirs.contains(self.spec_temp()) && final(w).now >= temp_age_ns() ==> no_stale_temp(*final(w), self.spec_temp(), final(w).now)'),
                  ('C06:three-calls-per-directory-item', 'final(w).steps <= old(w).steps + 2 + 3 * (final(w).listed - old(w).listed) && final(w).opens <= old(w).opens + 1 && final(w).published == old(w).published'),
                  ('C05 C18:error-is-a-real-fault', 'r.is_err() ==> final(w).hard_faults > old(w).hard_faults')])
     ct.body_start('proof { lemma_child(self.spec_base(), temp_name()); }')
@@ -1331,6 +1374,9 @@ pub open spec fn write_frame(old: World, fin: World, base: PathV, name: Seq<u8>,
         requires=[('', 'old(w).inv() && (self.spec_temp() == child(self.spec_base(), temp_name()) && old(w).cache_dirs.contains(self.spec_base()) && !old(w).under_ro(self.spec_base()) && !old(w).under_ro(self.spec_temp()) && (forall|n: Seq<u8>| !old(w).under_ro(#[trigger] child(self.spec_base(), n))) && (forall|n: Seq<u8>| !old(w).under_ro(#[trigger] child(self.spec_temp(), n)))) && pbv(base_dir) == self.spec_base()')],
         ensures=[INV, ('', 'final(w).kept(*old(w))'),
                  ('C17 C07 C02:maintenance-deletes-only-evictable-entries-and-stale-temporary-files', 'cleanup_frame(*old(w), *final(w), self.spec_base())'),
+                 ('C02:debris-older-than-the-age-limit-is-removed-when-no-call-fails',
+                  'r.is_ok() && final(w).hard_faults == old(w).hard_faults && old(w).dirs.contains(self.spec_base()) && old(w).dirs.contains(self.spec_temp()) && final(w).now >= temp_age_ns() '
+                  '==> no_stale_temp(*final(w), self.spec_temp(), final(w).now)'),
                  ('C06:linear-in-the-number-of-directory-entries', 'final(w).steps <= old(w).steps + 4 + 3 * (final(w).listed - old(w).listed) && final(w).opens <= old(w).opens + 2'),
                  ('C05 C18:error-is-a-real-fault', 'r.is_err() ==> final(w).hard_faults > old(w).hard_faults')])
     dc.insert_before('self . cleanup_temp_directory ( ) ? ;',
@@ -1365,6 +1411,9 @@ pub open spec fn write_frame(old: World, fin: World, base: PathV, name: Seq<u8>,
         requires=[('', 'old(w).inv() && (self.spec_temp() == child(self.spec_base(), temp_name()) && old(w).cache_dirs.contains(self.spec_base()) && !old(w).under_ro(self.spec_base()) && !old(w).under_ro(self.spec_temp()) && (forall|n: Seq<u8>| !old(w).under_ro(#[trigger] child(self.spec_base(), n))) && (forall|n: Seq<u8>| !old(w).under_ro(#[trigger] child(self.spec_temp(), n))))')],
         ensures=[INV, ('', 'final(w).kept(*old(w))'),
                  ('C17 C07 C02:maintenance-deletes-only-evictable-entries-and-stale-temporary-files', 'cleanup_frame(*old(w), *final(w), self.spec_base())'),
+                 ('C02:debris-older-than-the-age-limit-is-removed-when-no-call-fails',
+                  'r.is_ok() && final(w).hard_faults == old(w).hard_faults && old(w).dirs.contains(self.spec_base()) && old(w).dirs.contains(self.spec_temp()) && final(w).now >= temp_age_ns() '
+                  '==> no_stale_temp(*final(w), self.spec_temp(), final(w).now)'),
                  ('C06:linear-in-the-number-of-directory-entries', 'final(w).steps <= old(w).steps + 4 + 3 * (final(w).listed - old(w).listed) && final(w).opens <= old(w).opens + 2'),
                  ('C05 C18:error-is-a-real-fault', 'r.is_err() ==> final(w).hard_faults > old(w).hard_faults')])
 
